@@ -23,9 +23,11 @@ Local Open Scope Z_scope.
 Definition wake_update (nb n : Z) (wp old : Z -> Qc) (i : Z) : Qc :=
   if ((0 <=? i) && (i <? nb * n))%bool then wp i else old i.
 
-(** _offset[x] = std::tan(_angle)*(xcenter-x)  (+ 0, * 1) for x < _xsize; zero-initialised beyond *)
+(** _offset[x] = std::tan(_angle)*(xcenter-x)  (+ 0, * 1) for x < _xsize; zero-initialised beyond.
+    Two float operations: the difference (exact on an unshifted grid, where xcenter = (n-1)/2; rounded
+    when --PhaseSpaceShiftX makes the zero bin a non-dyadic float) and the product. *)
 Definition rf_offsets (n : Z) (t xc : Qc) (i : Z) : Qc :=
-  if ((0 <=? i) && (i <? n))%bool then rnd32 (t * (xc - Qcz i))%Qc else 0%Qc.
+  if ((0 <=? i) && (i <? n))%bool then rnd32 (t * rnd32 (xc - Qcz i))%Qc else 0%Qc.
 
 (** The displacement a table row written by updateSM realises for the stored offset [o]:
     the code splits the *float* sum n/2 + o, so this is what the stencil's first moment is. *)
